@@ -5,7 +5,8 @@ k tracepoints. Oracle: closure of every reference, parallel walk of the recorded
 object graph (child links must lead to the entry of the right object), uniqueness of identities,
 termination with back-references.
 """
-from .. import graphs, snapref
+from ..drive import Forwarder
+from .. import graphs, rig, snapref
 
 ID = 'C07'
 LEVEL = 'exploration'
@@ -43,6 +44,14 @@ def cases(tier, seed):
     for m in (9, 10, 11, 99, 100, 101, 150, 500, 998, 1001):
         for shape in ('dict', 'lists', 'obj'):
             out.append({'k': 'bigwatch', 'size': m, 'shape': shape})
+    # objects that leave the program while their id is still in the table: a deferred (capture) snapshot records at entry and again at
+    # exit; values an object computes on demand exist only while they are walked. A later object may get the same address.
+    for shape in ('pop-and-replace', 'rebind', 'clear-container'):
+        for kind in ('capture_method', 'capture_line'):
+            out.append({'k': 'lifetime', 'shape': shape, 'kind': kind})
+    for fields in ('cells', 'floats'):
+        for second in ('watch', 'all_frame'):
+            out.append({'k': 'ondemand', 'fields': fields, 'second': second})
     return out
 
 
@@ -121,7 +130,177 @@ def run_bigwatch(ctx, desc):
         ctx.outcome(('bigwatch', shape, m > 100, [w.error for w in snap.watches]))
 
 
+LIFETIME_SRC = '''
+class Order:
+    def __init__(self, n):
+        self.n = n
+class Receipt:
+    def __init__(self, total):
+        self.total = total
+def pop_and_replace(queue):
+    order = queue.pop()
+    total = order.n * 2
+    del order
+    return Receipt(total)
+def rebind(queue):
+    box = queue[0]
+    queue[0] = None
+    total = box.n * 2
+    box = None
+    return Receipt(total)
+def clear_container(queue):
+    total = sum(o.n for o in queue) * 2
+    queue.clear()
+    return Receipt(total)
+def main(fn, made):
+    import weakref
+    queue = [Order(21)]
+    made[str(id(queue[0]))] = ('Order', weakref.ref(queue[0]))
+    del made
+    r = fn(queue)
+    return r
+'''
+
+
+def run_lifetime(ctx, desc):
+    """Every object that was given an id must still be the object behind that id when the table is used for the last time: the
+    program releases a recorded object between the two collections of a deferred snapshot. Oracle 1 (deterministic): the object is
+    still alive when the snapshot is delivered. Oracle 2 (allocator permitting): the captured value's entry is an entry of its type."""
+    import weakref
+    from deep.api.tracepoint.trigger import Trigger, LineLocation, FunctionLocation, Location, LocationAction
+    ns, path = rig.load_program('c07life', LIFETIME_SRC)
+    fn = desc['shape'].replace('-', '_')
+    src = LIFETIME_SRC.split('\n')
+    cfg = {'watches': [], 'frame_type': 'single_frame', 'fire_count': '-1', 'fire_period': '0'}
+    if desc['kind'] == 'capture_method':
+        cfg['stage'] = 'method_capture'
+        trig = Trigger(FunctionLocation('c07life.py', fn, Location.Position.CAPTURE), [LocationAction('tp', None, cfg, LocationAction.ActionType.Snapshot)])
+    else:
+        cfg['stage'] = 'line_capture'
+        trig = Trigger(LineLocation('c07life.py', src.index('    r = fn(queue)') + 1, Location.Position.CAPTURE), [LocationAction('tp', None, cfg, LocationAction.ActionType.Snapshot)])
+    agent = rig.Agent(plugins=[])
+    agent.install([trig])
+    made = {}       # id -> (type name, weak reference), filled by the program
+    seen = {}
+    real_push = agent.push.push_snapshot
+
+    def push(snap):
+        # at delivery: which recorded objects of the program are gone?
+        seen['dead'] = [(h, t) for h, (t, wr) in made.items() if wr() is None and any(v.hash == h for v in snap.var_lookup.values())]
+        return real_push(snap)
+    agent.push.push_snapshot = push
+    from ..drive import run_installed
+    with rig.VirtualClock():
+        run = run_installed(agent.handler, ns['main'], ns[fn], made)      # no recorder: it would keep the program's frames alive
+    run.escaped = []
+    ctx.case()
+    ctx.nt(('lifetime', desc['shape'], desc['kind']))
+    if run.escaped or run.exc is not None or len(agent.snapshots) != 1:
+        ctx.violation('C07/lifetime/no-snapshot', f'{desc}: snapshots={len(agent.snapshots)} escaped={run.escaped[:1]} exc={run.exc!r}', desc)
+        return
+    snap = agent.snapshots[0]
+    ctx.outcome(('lifetime', desc['shape'], bool(seen.get('dead'))))
+    cap = [w for w in snap.watches if w.source == 'CAPTURE']
+    if cap and cap[0].result is not None:
+        var = snap.var_lookup.get(cap[0].result.vid)
+        if var is not None and var.type != 'Receipt':
+            ctx.violation(f'C07/different-objects-share-entry/capture/{desc["kind"]}', f'{fn}: the function returned a Receipt; the snapshot says the captured value is variable '
+                          f'{cap[0].result.vid}, the entry of a {var.type} recorded at entry (the id of a released object was reused)', desc)
+            return
+    if seen.get('dead'):
+        ctx.violation(f'C07/recorded-object-released-while-id-in-use/{desc["kind"]}', f'{fn}: objects {seen["dead"]} have entries in the table but were released before the '
+                      f'snapshot was completed - the next object at that address is taken for them', desc)
+
+
+ONDEMAND_SRC = '''
+class Cell:
+    def __init__(self, v):
+        self.v = v
+class Row:
+    __slots__ = ('_raw', '_cells')
+    def __init__(self, a, b, cells):
+        self._raw = (a, b)
+        self._cells = cells
+    @property
+    def __dict__(self):
+        # computed on demand: fresh objects on every access
+        if self._cells:
+            return {'temp': Cell(self._raw[0]), 'humidity': Cell(self._raw[1])}
+        return {'temp': float(str(self._raw[0])), 'humidity': float(str(self._raw[1]))}
+def report(first, other):
+    n = 1
+    return n
+def outer(cells):
+    other = Row(-3.75, 88.0, cells)
+    return report(Row(21.5, 40.25, cells), other)
+'''
+
+
+def run_ondemand(ctx, desc):
+    from deep.api.tracepoint.trigger import Trigger, LineLocation, Location, LocationAction
+    ns, path = rig.load_program('c07ondemand', ONDEMAND_SRC)
+    line = ONDEMAND_SRC.split('\n').index('    return n') + 1
+    cfg = {'watches': ['other'] if desc['second'] == 'watch' else [], 'frame_type': 'all_frame' if desc['second'] == 'all_frame' else 'no_frame',
+           'fire_count': '-1', 'fire_period': '0'}
+    if desc['second'] == 'watch':
+        cfg['watches'] = ['first', 'other']
+    agent = rig.Agent(plugins=[])
+    agent.install([Trigger(LineLocation('c07ondemand.py', line, Location.Position.START), [LocationAction('tp', None, cfg, LocationAction.ActionType.Snapshot)])])
+    with rig.VirtualClock():
+        run = Forwarder({path}, agent.handler).call(ns['outer'], desc['fields'] == 'cells')
+    ctx.case()
+    ctx.nt(('ondemand', desc['fields'], desc['second']))
+    if run.escaped or run.exc is not None or len(agent.snapshots) != 1:
+        ctx.violation('C07/ondemand/no-snapshot', f'{desc}: snapshots={len(agent.snapshots)} escaped={run.escaped[:1]}', desc)
+        return
+    snap = agent.snapshots[0]
+    table = snap.var_lookup
+    rows = {}
+    if desc['second'] == 'watch':
+        for w in snap.watches:
+            if w.result is not None:
+                rows[w.expression] = w.result.vid
+    else:
+        for fr in snap.frames:
+            for v in fr.variables:
+                if v.name in ('first', 'other'):
+                    rows.setdefault(v.name, v.vid)
+
+    def fields(vid):
+        out = {}
+        for c in table[vid].children:
+            e = table.get(c.vid)
+            if e is not None and e.type == 'Cell':
+                out[c.name] = [table[g.vid].value for g in e.children if g.vid in table][:1]
+            else:
+                out[c.name] = e.value if e is not None else None
+        return out
+    want = {'first': {'temp': 21.5, 'humidity': 40.25}, 'other': {'temp': -3.75, 'humidity': 88.0}}
+    ctx.outcome(('ondemand', tuple(sorted(rows))))
+    ids = {}
+    for name, vid in rows.items():
+        if vid not in table:
+            continue
+        got = fields(vid)
+        for k, v in want[name].items():
+            g = got.get(k)
+            g = g[0] if isinstance(g, list) and g else g
+            if g != str(v):
+                ctx.violation(f'C07/different-objects-share-entry/on-demand-{desc["fields"]}', f'{name}.{k} is {v}; the snapshot shows {g!r} (fields of {sorted(rows)}: '
+                              f'{ {n: fields(i) for n, i in rows.items() if i in table} }) - the id of a value that existed only while the first row was walked was reused', desc)
+                return
+        for c in table[vid].children:
+            if c.vid in ids and ids[c.vid] != (name, c.name):
+                ctx.violation(f'C07/different-objects-share-entry/on-demand-{desc["fields"]}', f'{name}.{c.name} and {ids[c.vid]} share variable id {c.vid}', desc)
+                return
+            ids[c.vid] = (name, c.name)
+
+
 def run_case(ctx, desc):
+    if desc['k'] == 'lifetime':
+        return run_lifetime(ctx, desc)
+    if desc['k'] == 'ondemand':
+        return run_ondemand(ctx, desc)
     if desc['k'] == 'bigwatch':
         return run_bigwatch(ctx, desc)
     if desc['k'] == 'one':
